@@ -16,15 +16,15 @@ from harness.core import q, z, zlit, coq_list, coq_bool, coq_opt
 
 PID = "C18"
 GEN_GROUPS = ["Analysis", "Battery"]
-TARGETS = ["coq/Props/C18.vo", "coq/Model/AnalysisQ.vo"]
+TARGETS = ["coq/Props/C18.vo", "coq/Model/AnalysisQc.vo"]
 CASES = {"quick": 160, "thorough": 2000}
 SHARD = 10
 CORR_HEADER = ("From Coq Require Import ZArith QArith List.\n"
-               "From ACN Require Import Base.Num Model.Ledger Model.LedgerQ Model.Analysis Model.AnalysisQ.\n"
+               "From ACN Require Import Base.Num Model.Ledger Model.LedgerQ Model.Analysis Model.AnalysisQ Model.AnalysisQc.\n"
                "Import ListNotations.\nOpen Scope Q_scope.\n")
-CHECK_FN = "check_c18"
+CHECK_FN = "check_c18_qc"      # the canonical-rational instance: the model of the axiom-free theorems
 RULE = ("one case = one completed Simulator.run() (C02 generator: 1-6 stations, voltages 120/208/240/277, mixed battery "
-        "classes, period 1/5/15/0.5/7.5) on a network with 1-5 constraints built from Current objects (three-phase groups on "
+        "classes, period 1/5/15/0.5/7.5 minutes and fractional-second / float-inexact periods 4.1, 0.1, 1/3, 2.3, 12.5/60, 0.025, 8.2, ...) on a network with 1-5 constraints built from Current objects (three-phase groups on "
         "phases 30/-90/150 and arbitrary angles, signed / fractional / scaled coefficients), then every analysis function: "
         "aggregate_current/power, constraint_currents with both flag values and None / random subsets / permutations / "
         "duplicates / unknown / empty id lists, total_energy_requested/delivered, proportion_of_energy_delivered, "
@@ -36,6 +36,7 @@ ASSUMPTIONS = ["theorems are over R with sqrt; the executable twin uses a 2^-60 
                "numpy reductions modelled as exact sums; IEEE rounding not modelled"]
 TRUSTED_EXTRA = ["name->number encoding of constraint ids, datetime64 -> minutes conversion"]
 F = fractions.Fraction
+PERIODS = [1, 5, 15, 0.5, 7.5, 4.1, 0.1, 1 / 3, 2.3, 12.5 / 60, 0.025, 8.2, 0.7, 4.35, 2 / 3, 1, 5]
 
 
 # ------------------------------------------------------------------------------------------------
@@ -67,7 +68,10 @@ def gen_input(rng, tier):
     inp = c02.gen_history(rng, tier, force="valid")
     for st in inp["stations"]:
         st["phase"] = rng.choice([30, -90, 150, 30, -90, 150, 0, 17.5, 180, -33.25])
-    inp["period"] = rng.choice([1, 5, 15, 0.5, 7.5])
+    # whole minutes, whole seconds, FRACTIONAL seconds (0.025 min = 1.5 s, 12.5/60 min = 12.5 s) and periods p for
+    # which the float product p*60 is not an integer (4.1*60 == 245.99999999999997, 8.2*60 == 491.99999999999994):
+    # all of them are a whole number of microseconds, the resolution of datetime
+    inp["period"] = rng.choice(PERIODS)
     inp["constraints"] = rand_constraints(rng, inp["stations"])
     m = len(inp["constraints"])
     names = list(range(m))
@@ -361,14 +365,26 @@ def monitor(case):
                 return "current_unbalance(%r)[%d] = %r, NEMA (max-mean)/mean = %r" % (ids, t, r[t], w)
     if len(ex["minutes_us"]) != ex["iteration"]:
         return "datetimes_array has %d entries for %d periods" % (len(ex["minutes_us"]), ex["iteration"])
+    # entry k = start + k * period, exactly, at the microsecond resolution of datetime
     for k, us in enumerate(ex["minutes_us"]):
-        if abs(F(us, 60 * 10**6) - F(inp["period"]) * k) > F(1, 10**6):
-            return "datetimes_array[%d] is %r minutes after start, expected %r" % (k, float(F(us, 60 * 10**6)), inp["period"] * k)
+        want_us = F(inp["period"]) * k * 60 * 10**6
+        if abs(us - want_us) > F(501, 1000):
+            return ("datetimes_array[%d] is %d us after start, start + %d * period (period = %r min) is %s us"
+                    % (k, us, k, inp["period"], float(want_us)))
     return None
 
 
 def search(rng, budget_s, broken):
     t0 = time.time()
+    # targeted probes first: one tiny simulation per period class (datetimes_array)
+    for p in PERIODS:
+        inp = gen_input(rng, "quick")
+        inp["period"] = p
+        c = make_case(inp)
+        if c is not None:
+            r = monitor(c)
+            if r:
+                return dict(case=c["input"], impl=c["impl"], why=r)
     while time.time() - t0 < budget_s:
         for _ in range(30):
             c = make_case(gen_input(rng, "quick"))
